@@ -16,7 +16,7 @@ replay = _dfs.replay
 CLUSTER = {"brokers": [1], "topics": {"t": {"0": 1}}}
 LOG = [["base", 1000], ["p", "k0", "v0"], ["p", "k1", "v1"], ["p", "k2", "v2"]]
 # retriable error (6), transport failure (drop / silent->timeout), out-of-range (1)
-MENU = {"err": {"1": [6, 1], "2": [6]}, "drop": True, "silent": True}
+MENU = {"err": {"1": [6, 1], "2": [6], "9": [16]}, "drop": True, "silent": True}
 KiB, MiB = 1024, 1024 * 1024
 
 
@@ -35,6 +35,17 @@ def word_configs(tier):
                "expect_start_failure": True}
         if policy == "latest" or start == 2000:
             cfg["script"] = [["start"], ["append", "n0", "late0", {"time": 0.01}]]
+        out.append(cfg)
+    # start from the group's committed position: the OffsetFetch exchange is part of the same retry sequence
+    for (init, mx), limit, stored in itertools.product([(0.1, 0.15), (1.0, 30.0)], [0, 3], [None, 1001]):
+        cons = {"buffer_size": 200, "request_retry_init_delay": init, "request_retry_max_delay": mx,
+                "request_retry_max_attempts": limit, "auto_commit_every_n": 0, "auto_commit_every_ms": 0,
+                "auto_offset_reset": "earliest"}
+        cfg = {"cluster": dict(CLUSTER, coordinator=1), "discovery": False, "log": LOG, "magic": 0,
+               "start": "committed", "group": True, "processor": "sync", "consumer": cons, "script": [["start"]],
+               "menu": MENU, "timeout_ms": 2000, "horizon_s": 400, "expect_start_failure": True}
+        if stored is not None:
+            cfg["stored"] = stored
         out.append(cfg)
     return out
 
@@ -83,7 +94,8 @@ def restart_configs(tier):
 RULE = ("retry words: every sequence of answers {ok, error 6, out-of-range, silent->timeout, drop} to the consumer's "
         "successive ListOffsets/Fetch requests with at most 3 (quick) / 5 (thorough) failures, for init/max delay "
         "{(0.1, 0.15), (1, 30)} x attempt limit {0,1,2,3} x reset policy {None, earliest, latest} x start {earliest, "
-        "in range, beyond the log end, before the log start}; buffer grid: initial {64 KiB, 1 MiB, 1 MiB+1, 2 MiB} x "
+        "in range, beyond the log end, before the log start, the group's committed position (OffsetFetch answered ok or "
+        "with error 16)}; buffer grid: initial {64 KiB, 1 MiB, 1 MiB+1, 2 MiB} x "
         "max {None, =initial, 16x, one byte too small, exact, +7} x message size {initial-100, initial+1, 1 MiB+1, "
         "3 MiB(, 5 MiB)}.  Oracle (observed at the consumer->client seam, the clock and the wire): the retry timer "
         "after k consecutive failures is min(init x 1.20205^(k-1), max) and k resets after a success; with limit L no "
